@@ -197,7 +197,7 @@ Definition canon (h : heap) (r : nat) : option (heap * nat) := save (S (length h
 Definition check_case (c : heap * nat * heap * nat) : bool :=
   match c with
   | (h, r, lh, lr) =>
-    match roundtrip (S (length h)) (2 * length h + 2) h r with
+    match roundtrip (S (length h)) (S (length h) * S (length h)) h r with
     | Some (h2, r2) =>
       match canon h2 r2 with
       | Some (h3, r3) => list_eqb node_eqb h3 lh && Nat.eqb r3 lr
@@ -206,3 +206,18 @@ Definition check_case (c : heap * nat * heap * nat) : bool :=
     | None => false
     end
   end.
+
+(* ---- vocabulary of the totality statement for `load` (T17_load_total; not used by check_case).
+   late_step x c: x is a late node (a tuple, for `load`) of h and c is one of its children;
+   late_reach x y: y is reached from x by one or more such steps, i.e. along a reference path on which every node
+   that is left is late.  late_reach x x is a reference cycle consisting only of late nodes (a tuple that contains
+   itself through tuples only - python cannot build one; a cycle through a list, dict, set or instance is fine). *)
+Definition late_step (late : node -> bool) (h : heap) (x c : nat) : Prop :=
+  exists nd, nth_error h x = Some nd /\ late nd = true /\ In c (children nd).
+Inductive late_reach (late : node -> bool) (h : heap) : nat -> nat -> Prop :=
+| lr_step x c : late_step late h x c -> late_reach late h x c
+| lr_trans x y c : late_reach late h x y -> late_step late h y c -> late_reach late h x c.
+Definition no_late_cycle (late : node -> bool) (h : heap) : Prop := forall x, ~ late_reach late h x x.
+(* the special case the harness generates: the children of late nodes are not late (tuples of containers / leaves) *)
+Definition late_flat (late : node -> bool) (h : heap) : Prop :=
+  forall x c nd', late_step late h x c -> nth_error h c = Some nd' -> late nd' = false.
